@@ -1307,3 +1307,83 @@ package avro
 //@   implements Codec.Omit
 //@   ensures [C02,C13] !res
 //@   pure
+
+// ================================================================ buildschema.go (C15): the documented Go type -> Avro schema mapping
+// reflect kinds: Bool=1 Int=2 Int8=3 Int16=4 Int32=5 Int64=6 Uint8=8 Float32=13 Float64=14 Array=17 Map=21 Ptr=22 Slice=23 String=24 Struct=25
+//@ spec isIntKind(k uint64) bool = k == 2 || k == 3 || k == 4 || k == 5 || k == 6
+//   two schema values are the same value: same type string, same object part, same union slice
+//@ spec sameSchema(a ptr, b ptr) bool = samebytes(a.Type, b.Type) && a.Object == b.Object && a.Union.ptr == b.Union.ptr && len(a.Union) == len(b.Union)
+
+// Termination of the type recursion needs a well-founded nesting depth of the Go type, which does not exist for
+// self-referential types (type T struct{ Next *T }): the rec-dec obligations below are unprovable, and that is the
+// known totality finding of C15 (stack overflow on recursive types), not a gap of the proof.
+//@ ghost tdepth(d ptr) int
+//@ axiom tdepth_bounds(d ptr): 0 <= tdepth(d) && tdepth(d) < 1<<30
+
+//@ func isInSchemaRegistry
+//@   ensures [C15,C20] res1 == maphas(schemaRegistry, typ) && (res1 ==> sameSchema(res0, mapget(schemaRegistry, typ)))
+//@   modifies type sync.RWMutex
+
+//@ func nullableSchema
+//@   ensures [C15] streq(res.Type, "union") && len(res.Union) == 2 && streq(res.Union[0].Type, "null") && res.Union[0].Object == nil && len(res.Union[0].Union) == 0 && sameSchema(res.Union[1], s) && res.Object == nil
+//@   pure
+
+//@ func schemaForType
+//@   uses tdepth_bounds(data(typ))
+//@   uses tdepth_bounds(relem(data(typ)))
+//@   measure 2 * tdepth(data(typ)) + 1
+//@   let k := rkind(data(typ)), reg := maphas(schemaRegistry, typ), elemReg := maphas(schemaRegistry, ifaceof(tag(typ), uint64(relem(data(typ)))))
+//@   requires typ != nil && data(typ) != nil
+//     C20/C15: a registered type gets exactly its registered schema
+//@   ensures [C15,C20] reg ==> err == nil && sameSchema(res, mapget(schemaRegistry, typ))
+//     the documented mapping of the basic kinds
+//@   ensures [C15] !reg && k == 1 ==> err == nil && streq(res.Type, "boolean") && res.Object == nil && len(res.Union) == 0
+//@   ensures [C15] !reg && isIntKind(k) ==> err == nil && streq(res.Type, "long") && res.Object == nil && len(res.Union) == 0
+//@   ensures [C15] !reg && (k == 13 || k == 14) ==> err == nil && streq(res.Type, "double") && res.Object == nil && len(res.Union) == 0
+//@   ensures [C15] !reg && k == 24 ==> err == nil && streq(res.Type, "string") && res.Object == nil && len(res.Union) == 0
+//@   ensures [C15] !reg && (k == 17 || k == 23) && rkind(relem(data(typ))) == 8 ==> err == nil && streq(res.Type, "bytes") && res.Object == nil && len(res.Union) == 0
+//@   ensures [C15] !reg && (k == 17 || k == 23) && rkind(relem(data(typ))) != 8 && err == nil ==> streq(res.Type, "array") && res.Object != nil && len(res.Union) == 0
+//@   ensures [C15] !reg && k == 21 && err == nil ==> streq(res.Type, "map") && res.Object != nil && len(res.Union) == 0
+//@   ensures [C15] !reg && k == 25 && err == nil ==> streq(res.Type, "record") && res.Object != nil && len(res.Union) == 0
+//     kinds the mapping cannot express are refused
+//@   ensures [C15] !reg && !(k == 1 || isIntKind(k) || k == 13 || k == 14 || k == 24 || k == 25 || k == 17 || k == 23 || k == 21 || k == 22) ==> err != nil
+//     pointers: [null, T] with null first, except that pointers to slices and maps stay plain arrays and maps
+//     (elemReg: the pointed-to type has its own registration, whose schema then decides)
+//@   ensures [C15] !reg && k == 22 && err == nil ==> streq(res.Type, "union") || streq(res.Type, "array") || streq(res.Type, "map")
+//@   ensures [C15] !reg && k == 22 && !elemReg && rkind(relem(data(typ))) == 21 && err == nil ==> streq(res.Type, "map")
+//@   ensures [C15] !reg && k == 22 && !elemReg && rkind(relem(data(typ))) == 23 && rkind(relem(relem(data(typ)))) != 8 && err == nil ==> streq(res.Type, "array")
+//@   ensures [C15] !reg && k == 22 && !elemReg && rkind(relem(data(typ))) == 1 ==> err == nil && streq(res.Type, "union") && len(res.Union) == 2 && streq(res.Union[0].Type, "null") && streq(res.Union[1].Type, "boolean")
+//@   ensures [C15] !reg && k == 22 && !elemReg && isIntKind(rkind(relem(data(typ)))) ==> err == nil && streq(res.Type, "union") && len(res.Union) == 2 && streq(res.Union[0].Type, "null") && streq(res.Union[1].Type, "long")
+//@   ensures [C15] !reg && k == 22 && !elemReg && rkind(relem(data(typ))) == 24 ==> err == nil && streq(res.Type, "union") && len(res.Union) == 2 && streq(res.Union[0].Type, "null") && streq(res.Union[1].Type, "string")
+//@   ensures [C15] !reg && k == 22 && !elemReg && rkind(relem(data(typ))) == 23 && rkind(relem(relem(data(typ)))) == 8 ==> err == nil && streq(res.Type, "union") && len(res.Union) == 2 && streq(res.Union[0].Type, "null") && streq(res.Union[1].Type, "bytes")
+//@   modifies type sync.RWMutex, heap cell:github.com/philpearl/avro.Schema.Type.base, heap cell:github.com/philpearl/avro.Schema.Type.off, heap cell:github.com/philpearl/avro.Schema.Type.len
+
+//@ func schemaForArray
+//@   uses tdepth_bounds(data(typ))
+//@   uses tdepth_bounds(relem(data(typ)))
+//@   measure 2 * tdepth(data(typ))
+//@   requires typ != nil && data(typ) != nil && (rkind(data(typ)) == 17 || rkind(data(typ)) == 23)
+//@   ensures [C15] rkind(relem(data(typ))) == 8 ==> err == nil && streq(res.Type, "bytes") && res.Object == nil && len(res.Union) == 0
+//@   ensures [C15] rkind(relem(data(typ))) != 8 && err == nil ==> streq(res.Type, "array") && res.Object != nil && len(res.Union) == 0
+//@   modifies type sync.RWMutex, heap cell:github.com/philpearl/avro.Schema.Type.base, heap cell:github.com/philpearl/avro.Schema.Type.off, heap cell:github.com/philpearl/avro.Schema.Type.len
+
+//@ func schemaForMap
+//@   uses tdepth_bounds(data(typ))
+//@   uses tdepth_bounds(relem(data(typ)))
+//@   measure 2 * tdepth(data(typ))
+//@   requires typ != nil && data(typ) != nil && rkind(data(typ)) == 21
+//@   ensures [C15] err == nil ==> streq(res.Type, "map") && res.Object != nil && len(res.Union) == 0
+//@   modifies type sync.RWMutex, heap cell:github.com/philpearl/avro.Schema.Type.base, heap cell:github.com/philpearl/avro.Schema.Type.off, heap cell:github.com/philpearl/avro.Schema.Type.len
+
+// field enumeration through reflect.StructField values is not modelled: trusted
+//@ func schemaForStruct
+//@   measure 2 * tdepth(data(typ))
+//@   requires typ != nil && data(typ) != nil && rkind(data(typ)) == 25
+//@   ensures [C15] err == nil ==> streq(res.Type, "record") && res.Object != nil && len(res.Union) == 0
+//@   modifies type sync.RWMutex, heap cell:github.com/philpearl/avro.Schema.Type.base, heap cell:github.com/philpearl/avro.Schema.Type.off, heap cell:github.com/philpearl/avro.Schema.Type.len
+//@   trusted
+
+//@ func SchemaForType
+//@   requires item != nil
+//@   ensures [C15] (rkind(typedesc(tag(item))) != 25 && !(rkind(typedesc(tag(item))) == 22 && rkind(relem(typedesc(tag(item)))) == 25)) ==> err != nil
+//@   modifies type sync.RWMutex, heap cell:github.com/philpearl/avro.Schema.Type.base, heap cell:github.com/philpearl/avro.Schema.Type.off, heap cell:github.com/philpearl/avro.Schema.Type.len
